@@ -351,6 +351,32 @@ pub fn run(ctx: &Ctx) {
         });
     }
     if !crate::lib_only() {
+        // special plaintext content through the real binary, password mode, -o files
+        {
+            use crate::cli::{Cmd, Exit, WorkDir};
+            let mut rng = Rng::fork(ctx.seed, "C02-cli-content");
+            let fams = crate::util::content_families(&mut rng);
+            par_for(fams.len(), crate::util::ncpu(), |j| {
+                let (what, pt) = &fams[j];
+                let wd = WorkDir::new("c02c");
+                wd.write("plain.bin", pt);
+                let e = Cmd::new(&wd.path, &["password", "encrypt", "plain.bin", "-o", "c.ktl", "--env-pass"]).pass("content pw").run();
+                let d = Cmd::new(&wd.path, &["password", "decrypt", "c.ktl", "-o", "p.out", "--env-pass"]).pass("content pw").run();
+                ctx.eval();
+                let c = std::fs::read(wd.file("c.ktl")).unwrap_or_default();
+                let got = std::fs::read(wd.file("p.out")).unwrap_or_default();
+                let refok = matches!(refspec::decode_pass_file(&c, b"content pw"), Ok(x) if x.body.complete() && &x.body.plaintext() == pt);
+                if e.exit == Exit::Code(0) && d.exit == Exit::Code(0) && &got == pt && refok {
+                    ctx.seen("cli: round trip of special plaintext content");
+                    ctx.distinct(&format!("cli-content|{}", what));
+                } else if e.exit == Exit::Timeout || d.exit == Exit::Timeout {
+                    ctx.inconclusive("C02 cli: timeout");
+                } else {
+                    ctx.violation("C02:cli:round-trip-of-special-content-fails", json!({"content": what, "encrypt": e.exit.describe(), "decrypt": d.exit.describe(), "plaintext_len": pt.len(), "decrypted_len": got.len(), "ciphertext_conforms": refok}));
+                }
+            });
+            ctx.require("cli: round trip of special plaintext content", 8);
+        }
         crate::ttylanes::c02(ctx);
         ctx.require("tty: typed password round trip", 4);
     }
